@@ -62,11 +62,26 @@ impl Optimizer {
         iteration: usize,
         iter_limit: usize,
     ) {
+        #[cfg(feature = "verif")]
+        let rules = rules
+            .into_iter()
+            .filter(|r| crate::verif::rule_allowed(r.name.as_str()))
+            .collect::<Vec<_>>();
         for _ in 0..iteration {
             let runner = egg::Runner::<_, _, ()>::new(self.analysis.clone())
                 .with_expr(expr)
                 .with_iter_limit(iter_limit)
                 .run(rules.clone());
+            #[cfg(feature = "verif")]
+            {
+                let mut applied: Vec<(String, usize)> = vec![];
+                for it in &runner.iterations {
+                    for (name, n) in &it.applied {
+                        applied.push((name.to_string(), *n));
+                    }
+                }
+                crate::verif::rules_applied(&applied);
+            }
             let cost_fn = cost::CostFn {
                 egraph: &runner.egraph,
             };
@@ -145,3 +160,126 @@ static STAGE3_RULES: LazyLock<Vec<Rewrite>> = LazyLock::new(|| {
     rules.append(&mut rules::order::order_rules());
     rules
 });
+
+/// Verification access to single rewrite rules (feature `verif`).
+#[cfg(feature = "verif")]
+impl Optimizer {
+    fn verif_all_rules(&self) -> Vec<(&'static str, Vec<Rewrite>)> {
+        vec![
+            ("expr", rules::expr::rules()),
+            ("and", rules::expr::and_rules()),
+            ("always_better", rules::plan::always_better_rules()),
+            ("subquery", rules::plan::subquery_rules()),
+            ("predicate_pushdown", rules::plan::predicate_pushdown_rules()),
+            ("projection_pushdown", rules::plan::projection_pushdown_rules()),
+            ("index_scan", rules::plan::index_scan_rules()),
+            ("join_reorder", rules::plan::join_reorder_rules()),
+            ("hash_join", rules::plan::hash_join_rules()),
+            ("order", rules::order::order_rules()),
+            ("range", rules::range::filter_scan_rule()),
+        ]
+    }
+
+    /// Names of all rewrite rules, with the group they are defined in.
+    pub fn verif_rule_names(&self) -> Vec<(String, String)> {
+        let mut seen = std::collections::HashSet::new();
+        let mut out = vec![];
+        for (group, rules) in self.verif_all_rules() {
+            for r in rules {
+                if seen.insert(r.name.to_string()) {
+                    out.push((group.to_string(), r.name.to_string()));
+                }
+            }
+        }
+        out
+    }
+
+    /// Apply rule `rule_name` at exactly one match (each of the first `max_matches` matches in
+    /// turn) on a fresh e-graph holding only `expr`, and extract, per match, the expression that
+    /// uses the newly created node at the matched class and the original nodes elsewhere.
+    pub fn verif_rewrite_once(
+        &self,
+        expr: &RecExpr,
+        rule_name: &str,
+        max_matches: usize,
+    ) -> Vec<RecExpr> {
+        let Some(rule) = (self.verif_all_rules().into_iter())
+            .flat_map(|(_, r)| r)
+            .find(|r| r.name.as_str() == rule_name)
+        else {
+            return vec![];
+        };
+        let mut out = vec![];
+        for k in 0..max_matches {
+            let mut egraph = EGraph::new(self.analysis.clone());
+            let root = egraph.add_expr(expr);
+            egraph.rebuild();
+            use egg::Language;
+            let old_nodes: Vec<Expr> = egraph
+                .classes()
+                .flat_map(|c| c.nodes.iter().cloned())
+                .collect();
+            let matches = rule.search(&egraph);
+            let flat: Vec<(Id, egg::Subst)> = matches
+                .iter()
+                .flat_map(|m| m.substs.iter().map(|s| (m.eclass, s.clone())))
+                .collect();
+            let Some((eclass, subst)) = flat.get(k).cloned() else {
+                break;
+            };
+            let matched_nodes: Vec<Expr> = egraph[eclass].nodes.clone();
+            let changed =
+                rule.applier
+                    .apply_one(&mut egraph, eclass, &subst, None, rule.name);
+            if changed.is_empty() {
+                continue;
+            }
+            egraph.rebuild();
+            let canon = |n: &Expr| n.clone().map_children(|c| egraph.find(c));
+            let old_nodes: std::collections::HashSet<Expr> = old_nodes.iter().map(canon).collect();
+            let matched_nodes: std::collections::HashSet<Expr> =
+                matched_nodes.iter().map(canon).collect();
+            let cost_fn = VerifNewNodeCost {
+                egraph: &egraph,
+                old_nodes: &old_nodes,
+                matched_nodes: &matched_nodes,
+            };
+            let extractor = egg::Extractor::new(&egraph, cost_fn);
+            let (cost, best) = extractor.find_best(root);
+            // the nodes of the matched class cost 1e6: cheaper means the rewritten form is used
+            if cost < 1e6 && &best != expr {
+                out.push(best);
+            }
+        }
+        out
+    }
+}
+
+#[cfg(feature = "verif")]
+struct VerifNewNodeCost<'a> {
+    egraph: &'a EGraph,
+    old_nodes: &'a std::collections::HashSet<Expr>,
+    matched_nodes: &'a std::collections::HashSet<Expr>,
+}
+
+#[cfg(feature = "verif")]
+impl egg::CostFunction<Expr> for VerifNewNodeCost<'_> {
+    type Cost = f64;
+    fn cost<C>(&mut self, enode: &Expr, mut costs: C) -> Self::Cost
+    where
+        C: FnMut(Id) -> Self::Cost,
+    {
+        use egg::Language;
+        let mut c = enode.fold(1.0, |sum, id| sum + costs(id));
+        let canon = enode.clone().map_children(|c| self.egraph.find(c));
+        if self.matched_nodes.contains(&canon) {
+            // the left-hand side of the rewrite: avoid
+            c += 1e6;
+        } else if !self.old_nodes.contains(&canon) {
+            // nodes created by the rewrite are slightly dearer than original ones, so that
+            // outside the matched class the original expression is kept
+            c += 0.5;
+        }
+        c
+    }
+}
